@@ -2058,6 +2058,16 @@ class ReaderExtractor:
                 c_ = c_.orelse[0] if len(c_.orelse) == 1 and isinstance(c_.orelse[0], ast.If) else None
             if any(self._tagtests(t_, st) is None for t_ in tests) and self._dispatch_chain(s, st, optset, hv):
                 return
+        # a test on a header whose identifier is already decided (inside the branch taken for one tag): the test is decided too
+        t_sub = self._subst_aliases(s.test, st)
+        bound_h = [h_ for h_ in st["headers"] if isinstance(st["headers"].get(h_), TagSpec) and any(isinstance(x, ast.Name) and x.id == h_ for x in ast.walk(t_sub))]
+        if len(bound_h) == 1:
+            sp_ = st["headers"][bound_h[0]]
+            reg_ = self._region_of(t_sub, st, bound_h[0]) if sp_.cls_name is not None and sp_.number is not None else None
+            if reg_ is not None:
+                here = region_meet([Box({sp_.cls_name}, {sp_.number})], reg_)
+                self._block(s.body if here else s.orelse, st)
+                return
         tt = self._tagtests(s.test, st)
         if tt is not None:
             h, spec = tt
